@@ -1,0 +1,18 @@
+//go:build verif
+// +build verif
+
+package js_printer
+
+import "github.com/evanw/esbuild/internal/js_ast"
+
+// Thin wrapper (no logic) for the C01 tagged-template check in /verif:
+// printExpr of this`raw${this}raw...` with the given raw strings.
+func VerifPrintTaggedTemplate(options Options, prefix []byte, headRaw string, tailsRaw []string) []byte {
+	p := verifBarePrinter(options, prefix, 0)
+	parts := make([]js_ast.TemplatePart, len(tailsRaw))
+	for i, t := range tailsRaw {
+		parts[i] = js_ast.TemplatePart{Value: js_ast.Expr{Data: js_ast.EThisShared}, TailRaw: t}
+	}
+	p.printExpr(js_ast.Expr{Data: &js_ast.ETemplate{TagOrNil: js_ast.Expr{Data: js_ast.EThisShared}, HeadRaw: headRaw, Parts: parts}}, js_ast.LLowest, 0)
+	return p.js
+}
